@@ -1,6 +1,7 @@
 package c14
 
 import (
+	bls12381Impl "github.com/bronlabs/bron-crypto/pkg/base/curves/pairable/bls12381/impl"
 	"bytes"
 	"fmt"
 	"math/big"
@@ -463,4 +464,71 @@ func pairingBody() func(*engine.X) {
 
 func runPairing() {
 	explore(pairingBody(), engine.Opts{Name: "pairing/bls12381", Budget: budget(150, 1200)})
+	explore(engineBody(), engine.Opts{Name: "pairing/bls12381-impl-engine", Budget: budget(120, 600)})
+}
+
+// ---------------------------------------------------------------------------------------------------------------
+// The exported low-level engine (bls12381/impl.Engine) takes ANY points, identities included (the high-level PPE
+// refuses them before they reach it): a pair with an identity operand contributes the factor one.
+
+func engineBody() func(*engine.X) {
+	return func(x *engine.X) {
+		c := &pctx
+		if err := c.init(); err != nil {
+			x.Failf("pairing/alphabet", "cannot build pairing alphabets: %v", err)
+			return
+		}
+		one := bls12381.NewGt().One()
+		// operand alphabets: index 0 = identity, then the first two non-identity points of the pairing alphabets
+		p1 := []*bls12381.PointG1{bls12381.NewG1().OpIdentity(), c.p1[0].lib, c.p1[2].lib}
+		p2 := []*bls12381.PointG2{bls12381.NewG2().OpIdentity(), c.p2[0].lib, c.p2[2].lib}
+		idx1, idx2 := []int{-1, 0, 2}, []int{-1, 0, 2}
+		n := 1 + x.Choose("len-1", 3)
+		entry := x.Choose("entry", 3) // AddPair / AddPairInvG1 / AddPairInvG2 for the FIRST pair
+		first := x.Choose("first", 9)
+		rest := 1
+		for i := 1; i < n; i++ {
+			rest *= 9
+		}
+		for t := 0; t < rest; t++ {
+			var e bls12381Impl.Engine
+			want := one
+			tt := t
+			desc := ""
+			for i := 0; i < n; i++ {
+				cc := first
+				if i > 0 {
+					cc = tt % 9
+					tt /= 9
+				}
+				a, b := cc%3, cc/3
+				f := one
+				if a != 0 && b != 0 {
+					f = c.e(x, idx1[a], idx2[b])
+				}
+				switch {
+				case i == 0 && entry == 1:
+					e.AddPairInvG1(&p1[a].V, &p2[b].V)
+					f = f.Inv()
+				case i == 0 && entry == 2:
+					e.AddPairInvG2(&p1[a].V, &p2[b].V)
+					f = f.Inv()
+				default:
+					e.AddPair(&p1[a].V, &p2[b].V)
+				}
+				want = want.Mul(f)
+				desc += fmt.Sprintf("(%d,%d)", a, b)
+			}
+			x.Case(fmt.Sprintf("pairing/engine/%d/%d/%s", n, entry, desc))
+			var got bls12381.GtElement
+			got.V.Set(e.Result())
+			if !gtEq(&got, want) {
+				x.Failf("pairing/engine-identity", "impl.Engine over the pairs %s (operand index 0 = identity; first pair through entry point %d): the result differs from the product of the pairings of the non-identity pairs", desc, entry)
+			}
+			if e.Check() != want.IsOne() {
+				x.Failf("pairing/engine-check", "impl.Engine.Check over the pairs %s = %v, the product is one: %v", desc, e.Check(), want.IsOne())
+			}
+		}
+		x.Observe(n, entry, first)
+	}
 }
